@@ -46,6 +46,7 @@ let lockstep n sched =
       let waiting = h0.LockModel.h_waiting in
       if c = 'r' && not waiting then out := Printf.sprintf "%d:r=idle" i :: !out
       else if c <> 'r' && c <> 's' && waiting then out := Printf.sprintf "%d:%c=busy" i c :: !out
+      else if c = 'w' then out := Printf.sprintf "%d:w=SUCCESS" i :: !out   (* writing to the file is not a lock operation *)
       else begin
         (match lop_of_char c with
          | Some o ->
@@ -78,6 +79,7 @@ let lockstep n sched =
       let waiting = h0.LockSpec.x_waiting in
       if c = 'r' && not waiting then sout := Printf.sprintf "%d:r=idle" i :: !sout
       else if c <> 'r' && c <> 's' && waiting then sout := Printf.sprintf "%d:%c=busy" i c :: !sout
+      else if c = 'w' then sout := Printf.sprintf "%d:w=SUCCESS" i :: !sout
       else begin
         (match xop_of_char c with
          | Some o ->
